@@ -1782,7 +1782,15 @@ pub fn cmd(m: &HashMap<String, String>) -> i32 {
 // ---------------------------------------------------------------------------------------------
 
 pub fn run_live(seed: u64, run_no: u64, nwriters: usize, nreaders: usize, ops: usize) -> SchedOutcome {
-    let u = Arc::new(Universe::plain(8));
+    run_live_mode(seed, run_no, nwriters, nreaders, ops, false)
+}
+
+/// `own`: six writers, each with its own five keys out of 30, read every key back right after
+/// writing it (read-your-write under group commit, rotation, flushes and automatic compactions);
+/// 4 KiB memtable, 8 KiB files; no other threads.
+pub fn run_live_mode(seed: u64, run_no: u64, nwriters: usize, nreaders: usize, ops: usize, own: bool) -> SchedOutcome {
+    let (nwriters, nreaders) = if own { (6, 0) } else { (nwriters, nreaders) };
+    let u = Arc::new(Universe::plain(if own { 30 } else { 8 }));
     let sink = TraceSink::new(Arc::clone(&u));
     watch_sink(&sink);
     let fs = SimFs::new(ROOT);
@@ -1814,12 +1822,17 @@ pub fn run_live(seed: u64, run_no: u64, nwriters: usize, nreaders: usize, ops: u
     );
     take_panics();
     let mut rng = StdRng::seed_from_u64(seed);
-    let opts = OptSet {
+    let mut opts = OptSet {
         memtable: *[250usize, 400, 800].get(rng.gen_range(0..3)).unwrap(),
         file: *[300u64, 600, 1500].get(rng.gen_range(0..3)).unwrap(),
         block: 64,
         reuse: false,
     };
+    if own {
+        opts.memtable = 4096;
+        opts.file = 8192;
+        opts.block = 4096;
+    }
     sink.emit_json(
         "Reset",
         json!({"run": run_no, "seed": seed, "nk": u.n(), "driver": "live",
@@ -1851,6 +1864,14 @@ pub fn run_live(seed: u64, run_no: u64, nwriters: usize, nreaders: usize, ops: u
             format!("w{}", w + 1),
             spawn_named(&format!("w{}", w + 1), move || {
                 let mut rng = StdRng::seed_from_u64(s);
+                if own {
+                    for n in 0..ops {
+                        let k = (w * 5 + n % 5) as i64 + 1;
+                        e.put(k, 12 + (n * 3) % 290);
+                        e.get(k);
+                    }
+                    return;
+                }
                 for _ in 0..ops {
                     if rng.gen_bool(0.75) {
                         e.put(rng.gen_range(1..=8), rng.gen_range(20..90));
@@ -1897,7 +1918,7 @@ pub fn run_live(seed: u64, run_no: u64, nwriters: usize, nreaders: usize, ops: u
         rxs.push((
             "m1".to_string(),
             spawn_named("m1", move || {
-                for i in 0..(ops / 25).max(1) {
+                for i in 0..(if own { 0 } else { (ops / 25).max(1) }) {
                     std::thread::sleep(Duration::from_millis(3));
                     if i % 2 == 0 {
                         e.db.compact_range(None..None);
@@ -1970,7 +1991,7 @@ pub fn cmd_live(m: &HashMap<String, String>) -> i32 {
     for (i, seed) in (seed0..seed0 + runs).enumerate() {
         let nw = 1 + (seed % 3) as usize;
         let nr = 1 + ((seed / 3) % 2) as usize;
-        let o = run_live(seed, i as u64 + 1, nw, nr, ops);
+        let o = run_live_mode(seed, i as u64 + 1, nw, nr, ops, m.contains_key("own-reads"));
         let path = out.join(format!("trace_{:04}.ndjson", i));
         let mut lines = o.lines;
         lines.push(json!({"e": "End", "i": 0, "t": "main"}));
@@ -1978,7 +1999,8 @@ pub fn cmd_live(m: &HashMap<String, String>) -> i32 {
         let rpath = out.join(format!("replay_{}.json", seed));
         std::fs::write(
             &rpath,
-            serde_json::to_string(&json!({"driver": "live", "seed": seed, "ops": ops, "jitter": jitter}))
+            serde_json::to_string(&json!({"driver": "live", "seed": seed, "ops": ops, "jitter": jitter,
+                                          "own": m.contains_key("own-reads")}))
                 .unwrap(),
         )
         .unwrap();
